@@ -477,7 +477,7 @@ class FamWorld:
         # library's own tests do): the operation is applied to this family and must leave the argument's value alone
         ref = ev.get("ref")
         ref_fam = ref_seq = ref_before = None
-        if ref is not None and name in ("scale", "equals") and len(self.fams) > 1:
+        if ref is not None and name in ("scale", "equals", "merge") and len(self.fams) > 1:
             ref_fam = self.fams[ref["fam"] % len(self.fams)]
             rs = ref_fam.seqs()
             if ref_fam is fam or not rs or ref_fam.it is not None:
@@ -491,6 +491,10 @@ class FamWorld:
         if ref_fam is not None:
             if name == "scale":
                 _, e = _call(s.scale, args["factor"], ref_seq, args.get("q", False))
+            elif name == "merge":
+                # merge adopts the argument's message objects for a moment, but the normalisation that follows rebuilds
+                # the receiver from copies: afterwards the two parties must be independent again
+                _, e = _call(s.merge, [ref_seq])
             else:
                 _, e = _call(s.equals, ref_seq)
             self.stats[f"reach_ref/{name}_with_other_family_as_argument"] += 1
@@ -915,6 +919,8 @@ def _gen_act(rng, world, fi, fam, inplace_bias):
             args = {"factor": 0.5, "q": rng.random() < 0.5, "meta": rng.choice([None, "self"])}
         if world.prop == "C16" and len(world.fams) > 1 and rng.random() < 0.5:
             ref = {"fam": rng.randrange(len(world.fams)), "target": rng.randrange(8)}
+    if name == "merge" and world.prop == "C16" and len(world.fams) > 1 and rng.random() < 0.5:
+        ref = {"fam": rng.randrange(len(world.fams)), "target": rng.randrange(8)}
     if name == "transpose":
         args = {"by": rng.choice([1, 2, 3, 5, 7, -1, -2, -5, -7, 11, 4, -4])}
     ev = {"op": "act", "fam": fi, "target": target, "name": name, "args": args}
